@@ -203,8 +203,21 @@ def run_half(case):
     try:
         d.add_handler(bad)
         res.tags['half_registration'].add('accepted')
+        failed = False
     except Exception as ex:
         res.tags['half_registration'].add(type(ex).__name__)
+        failed = True
+    if failed:
+        # the registration failed: the object is no handler and receives
+        # nothing (and remove_handler has nothing to undo)
+        d.dispatch('ev', 0)
+        if d.is_handler(bad) or any(e[1] == 'bad' for e in got):
+            res.div(0, 'failed-registration-still-served', 'add_handler '
+                    'raised, yet the object is served / reported as a '
+                    'handler', [False, []],
+                    [d.is_handler(bad), [e for e in got if e[1] == 'bad']])
+            return res
+        del got[:]
     del bad
     gc.collect()
     if ref() is not None:
